@@ -293,10 +293,19 @@ func classify(n *Node, x ctx, r result) string {
 }
 
 type Case struct {
-	Family   string `json:"family"`
-	Template string `json:"template"`
-	Ctx      ctx    `json:"match"`
-	Node     *Node  `json:"node"`
+	Family   string     `json:"family"`
+	Template string     `json:"template,omitempty"`
+	Ctx      ctx        `json:"match"`
+	Node     *Node      `json:"node,omitempty"`
+	Size     *sizeRef   `json:"size,omitempty"`    // family "size": program and match are regenerated from (shape, n)
+	History  []histStep `json:"history,omitempty"` // family "history": the evaluations in order; the last one is judged
+}
+
+func caseOf(p *program, x ctx) Case {
+	if p.size != nil {
+		return Case{Family: p.family, Size: p.size}
+	}
+	return Case{Family: p.family, Template: p.node.String(), Ctx: x, Node: p.node}
 }
 
 func quoteAll(l []string) string {
@@ -333,12 +342,30 @@ func describe(n *Node, x ctx, r result, blamed *Node, br result) string {
 	return sb.String()
 }
 
-func report(w *runner.W, family string, n *Node, x ctx, r result) {
+func report(w *runner.W, p *program, x ctx, r result) {
+	n := p.node
 	blamed, br := localise(n, x)
 	if br.ok { // cannot happen: the node itself failed
 		blamed, br = n, r
 	}
-	w.Violation(classify(blamed, x, br), describe(n, x, r, blamed, br), Case{family, n.String(), x, n})
+	sig := classify(blamed, x, br)
+	detail := describe(n, x, r, blamed, br)
+	if p.size != nil {
+		sig += "/size-family"
+		detail = fmt.Sprintf("size shape %s, n = %d\n", p.size.Shape, p.size.N) + clipDetail(detail)
+	}
+	w.Violation(sig, detail, caseOf(p, x))
+}
+
+// clipDetail keeps the head of every line of a description of a big case.
+func clipDetail(d string) string {
+	lines := strings.Split(d, "\n")
+	for i, l := range lines {
+		if len(l) > 400 {
+			lines[i] = l[:400] + "…"
+		}
+	}
+	return strings.Join(lines, "\n")
 }
 
 // ---- worker ------------------------------------------------------------------------
@@ -355,6 +382,14 @@ func worker(w *runner.W) {
 		if programNo%512 < int64(w.N) && w.Expired() {
 			return false
 		}
+		if !p.materialize() {
+			return true
+		}
+		forCap = 24
+		if p.forCap > 0 {
+			forCap = p.forCap
+		}
+		defer func() { forCap = 24 }()
 		tmpl := p.node.String()
 		var c *compiled
 		if probeSkips(p.node) {
@@ -376,10 +411,13 @@ func worker(w *runner.W) {
 		}
 		for si := range seq {
 			x := seq[si]
-			cur = Case{p.family, tmpl, x, p.node}
+			cur = caseOf(p, x)
 			id := &p.ctxs[si%len(p.ctxs)]
 			if si >= len(p.ctxs) {
 				id = &p.ctxs[2*len(p.ctxs)-1-si]
+			}
+			if p.size != nil {
+				id = nil // no memo of big values
 			}
 			want := ref(p.node, env{g: x.G, keys: x.K, id: id})
 			if want.skip {
@@ -394,10 +432,24 @@ func worker(w *runner.W) {
 			w.Eval(nontrivial)
 			if r.want.free {
 				w.Add("unconstrained_by_statement", 1)
+				if p.size != nil {
+					w.Add("size_family_unconstrained_overlapping_delimiter_under_another_helper", 1)
+				}
+			}
+			if r.want.pred != nil {
+				w.Add("judged_by_the_split_test_instead_of_a_listed_set", 1)
 			}
 			if !r.ok {
-				report(w, p.family, p.node, x, r)
+				report(w, p, x, r)
 				continue
+			}
+			if p.size != nil {
+				w.Add("size_family_cases", 1)
+				w.Max("size_family_largest_n", int64(p.size.N))
+				if len(r.got) > 64 {
+					w.Outcome(p.node.S, p.size.Shape, strconv.Itoa(len(r.got)))
+					continue
+				}
 			}
 			w.Outcome(p.node.S, r.got)
 			if nontrivial && w.WantSample() && p.family == "chain2" && strings.Count(r.got, nul) >= 2 && programNo%97 < int64(w.N) {
@@ -406,6 +458,9 @@ func worker(w *runner.W) {
 		}
 		return true
 	})
+	forCap = 24
+	// family "history" (history.go)
+	historyFamily(w, &programNo)
 }
 
 func replay(w *runner.W, raw json.RawMessage) {
@@ -413,13 +468,23 @@ func replay(w *runner.W, raw json.RawMessage) {
 	if err := json.Unmarshal(raw, &c); err != nil {
 		panic(err)
 	}
-	r := check(c.Node, nil, c.Ctx)
+	if c.Family == "history" && len(c.History) > 0 {
+		replayHistory(w, c)
+		return
+	}
+	p := &program{family: c.Family, node: c.Node, ctxs: []ctx{c.Ctx}}
+	if c.Size != nil {
+		p = sizeProgramByRef(c.Size)
+		forCap = p.forCap
+	}
+	x := p.ctxs[0]
+	r := check(p.node, nil, x)
 	if r.skip {
 		fmt.Println("the model predicts non-termination; not executed")
 		return
 	}
 	if !r.ok {
-		report(w, c.Family, c.Node, c.Ctx, r)
+		report(w, p, x, r)
 	}
 }
 
@@ -429,17 +494,19 @@ func main() {
 		Properties: []string{"C17"},
 		Level:      "exploration",
 		Rule: func(prop, tier string) string {
-			ll, ix, sl := "0..3", "-5..5", "5"
+			ll, ix, sl, sz := "0..3", "-5..5", "5", strconv.Itoa(sizeCapThorough)
 			if tier != "thorough" {
-				ll, ix, sl = "0..2", "-3..3", "4"
+				ll, ix, sl, sz = "0..2", "-3..3", "4", strconv.Itoa(sizeCapQuick)
 			}
-			return "programs: 20 sources ({0}; @split of the joined list by {default, ',', '::', ' ', 'é', 'ab'}; {@ ..}/{$ ..} of groups, of list+element, of constants; 4 @range; 2 @for) x chains of 0, 1 and 2 operations out of {@len; @join default/''/5 delimiters; @split default/5 delimiters; @map with 11 sub-expressions; @filter with 9; @reduce with 7 x initial {unset, '', I, 0}; @select index " + ix + "; @slice start " + ix + " x length {unset, " + ix + "}} (sub-expressions: {0} {1} {-1} named keys, upper len sumi eq not if coalesce lt, nested @split/@join/@map/@len/@in), each on every list of " + ll + " elements over {'', a, 'b b', é, and the non-UTF-8 bytes \\xe9, \\xc3, \\xff} (results compared byte for byte); plus @split/@join/@len/@select/@slice on every string of length <= " + sl + " over {a : , é \\xe9 \\xc3 \\xff} with delimiters {',', '::', 'é', 'aa', 'a:', ':,:'}; @range with 1-3 constant and dynamic arguments in " + ix + " and non-numbers; 252 @for loops (4 starts x 9 conditions x 7 increments) alone and under @len/@join; @in over 12 constant arrays x 10 values. Every program is compiled by NewStdKeyBuilder (optimising) and evaluated through BuildKey; one case = (program, match). non-trivial = the result is constrained by the statement, is not an error marker and agrees with the model"
+			return "programs: 20 sources ({0}; @split of the joined list by {default, ',', '::', ' ', 'é', 'ab'}; {@ ..}/{$ ..} of groups, of list+element, of constants; 4 @range; 2 @for) x chains of 0, 1 and 2 operations out of {@len; @join default/''/5 delimiters; @split default/5 delimiters; @map with 11 sub-expressions; @filter with 9; @reduce with 7 x initial {unset, '', I, 0}; @select index " + ix + "; @slice start " + ix + " x length {unset, " + ix + "}} (sub-expressions: {0} {1} {-1} named keys, upper len sumi eq not if coalesce lt, nested @split/@join/@map/@len/@in), each on every list of " + ll + " elements over {'', a, 'b b', é, and the non-UTF-8 bytes \\xe9, \\xc3, \\xff} (results compared byte for byte); plus @split/@join/@len/@select/@slice on every string of length <= " + sl + " over {a : , é \\xe9 \\xc3 \\xff} with delimiters {',', '::', 'é', 'aa', 'a:', ':,:'}; @range with 1-3 constant and dynamic arguments in " + ix + " and non-numbers; 252 @for loops (4 starts x 9 conditions x 7 increments) alone and under @len/@join; @in over 12 constant arrays x 10 values. Family nest: " + strconv.Itoa(len(nestPrograms())) + " programs with array helpers inside the sub-expression of array helpers ({@map} 2, 3 and 4 deep over the separators space, comma, semicolon; {0}, {1} and named keys used AFTER an inner @map/@filter/@reduce/@len ran inside the same sub-expression; inner @reduce inside @map inside @map; @for around and inside @map), alone and under @len/@join/@select, on every list of " + ll + " elements over {'', a, 'b b', 'a,b c', 'x;y,z w', 'a b;c', '1 22 333'} and of 0..2 elements over the byte alphabet. Family size (signatures end in /size-family): " + strconv.Itoa(len(sizeShapes())) + " fixed program shapes on inputs whose size n is swept over 0..70 and 2^k-1, 2^k, 2^k+1 (k >= 7) up to " + sz + " (programs that copy n*n bytes: up to 257..1025 quick / 1025..4097 thorough): lists of n elements e0..e(n-1), with empty elements at the start, middle and end, one element followed by n empty ones, n empty ones, n/2 leading empty ones; @split/@join/@len/@select over them with the delimiters {',', '::', 'aba', 'abab', 'ababa', 'aa'} (1..5 bytes, four of them self-overlapping), also with elements that end in a prefix or start with a suffix of the delimiter (when the allowed decompositions are too many to list, the outermost @split is judged by a test - no element contains the delimiter and the join gives the string back - and @join of @split by the same delimiter must give the string back); @select index and @slice start in {-n-1,-n,-n+1,-2,-1,0,1,2,n/2,n-2,n-1,n,n+1} x length {unset,0,1,2,n/2,n-1,n,n+1}; @range with 10 argument shapes producing about n elements (constant and from groups) and 5 @for loops producing n elements, alone and under @len/@join/@select -1/@reduce sumi/@slice -2; @map (6), @filter (8), @reduce (6) over the n elements; the nest programs over n structured elements and over elements with n innermost parts. Family history: every program of the families chain0, chain1, range, for, in and nest: the sub-context pool is put into the fresh-process state ONCE, the program is compiled ONCE and evaluated over all its matches forward and backward with nothing in between, then alternately with each of 6 other compiled expressions (disturbers taking 1..4 nested sub-contexts from the same pool, binding {1}, resolving keys) on their own matches; named keys differ from match to match; every result must equal that of a fresh compilation on a fresh pool (signature C17/<helper>/value-depends-on-earlier-evaluations). Every program is compiled by NewStdKeyBuilder (optimising) and evaluated through BuildKey; one case = (program, match). non-trivial = the result is constrained by the statement, is not an error marker and agrees with the model (history: the fresh result is not an error marker or panic)"
 		},
 		Assumptions: func(string) []string {
 			return []string{
 				"'' stands for both the empty list and the list holding one empty string; every helper is allowed either reading (set-valued model)",
 				"negative @select index, explicit negative @slice length, explicit empty @join delimiter and invalid @range arguments are not described by the statement: every reasonable answer (or an error marker) is accepted; a @slice start before the beginning may clamp the start or clip the window",
-				"before each compile and evaluation the package-level sub-context pool is put into the state of a fresh process (no parent on any pooled object) by evaluating five nested @map calls with a nil context",
+				"before each compile and evaluation the package-level sub-context pool is put into the state of a fresh process (no parent on any pooled object) by evaluating six nested @map calls with a nil context; only the history family evaluates without that (once at the start of each program's history)",
+				"{1} inside @map/@filter is not described by the statement; the model takes it as empty and no program relies on it",
+				"size sweeps stop at the cap of the tier; between the swept sizes (71..126, 130..254, ...) only the small lists are covered; programs whose @for would run longer than n+2 iterations in the model are not executed",
 				"programs for which the model predicts more than 24 @for iterations are not executed (the implementation would run to its 1,000,000-iteration guard); the same holds for programs whose @for would not end on the empty match that Compile evaluates every stage against",
 				"only the sequential part of C17; two concurrent evaluators sharing the pool are not covered by this harness",
 			}
